@@ -180,7 +180,7 @@ func TestPropPositionalNamedAgree(t *testing.T) {
 			"shuffled members; responses and invocation logs must be equal and match the model; non-trivial = the call binds >= 2 arguments or leaves an optional tail absent",
 		func(rt *rapid.T, c *stats.Case) {
 			g := newGen(rt, c, false)
-			sp := withParams[g.intn("method", 0, len(withParams)-1)]
+			sp := withParams[g.uniform("method", len(withParams))]
 			vals := g.callArgs(sp)
 			bad := false
 			if len(vals) > 0 && g.pick("bad", 4, 1) == 1 {
@@ -535,10 +535,6 @@ func TestKnownNotificationBatchAnswered(t *testing.T) {
 
 func TestKnownNilResultOmitted(t *testing.T) {
 	witness(t, kNilRes, `{"jsonrpc":"2.0","method":"nilResult","id":1}`, func(out string) bool { return !strings.Contains(out, `"result"`) })
-}
-
-func TestKnownToplevelScalarParseError(t *testing.T) {
-	witness(t, kScalar, `1`, func(out string) bool { return strings.Contains(out, "-32700") })
 }
 
 func TestKnownBatchAfterLongWhitespace(t *testing.T) {
